@@ -233,12 +233,31 @@ def play(ctx, seq):
                 if not ping_ok(d):
                     problems.append("step %d: PING not answered within 2 s" % step)
             elif b == "status":
-                s = connect(d)
-                s.sendall(hdr(0x03, 0))
-                p, code, errs, closed = read_session(s, 3.0)
-                s.close()
-                if not p.startswith(b"active_clients="):
-                    problems.append("step %d: STATUS reply %r" % (step, p[:40]))
+                # bookkeeping: the daemon counts every connected session, so with k sessions of this client still open the
+                # reply must (after the threads of just-closed sessions have ended) say k + 1 (the STATUS session itself)
+                expected = len(open_socks) + 1
+                last = None
+                t_end = time.time() + 4.0
+                while True:
+                    s = connect(d)
+                    s.sendall(hdr(0x03, 0))
+                    p, code, errs, closed = read_session(s, 3.0)
+                    s.close()
+                    if not p.startswith(b"active_clients="):
+                        problems.append("step %d: STATUS reply %r" % (step, p[:40]))
+                        break
+                    try:
+                        last = int(p.split(b"=", 1)[1].split()[0])
+                    except ValueError:
+                        problems.append("step %d: STATUS reply %r" % (step, p[:40]))
+                        break
+                    if last == expected or time.time() > t_end:
+                        break
+                    time.sleep(0.1)
+                if last is not None and last < expected:
+                    problems.append("step %d: STATUS reports active_clients=%d while %d other sessions are open (bookkeeping corrupted by an earlier session)" % (step, last, expected - 1))
+                elif last is not None and last > expected:
+                    stats["status_count_high"] = stats.get("status_count_high", 0) + 1       # slow clean-up of abandoned sessions: not a verdict
             else:
                 stats["malformed"] += 1
                 s = connect(d)
@@ -331,6 +350,8 @@ def run_case(ctx, seq, ev):
     ev.cls("verdict_" + ("violation" if problems else "ok"))
     ev.cls("sessions_malformed", stats["malformed"])
     ev.cls("sessions_wellformed", stats["wellformed"])
+    if stats.get("status_count_high"):
+        ev.cls("status_count_still_high_after_4s", stats["status_count_high"])
     for b in set(seq):
         ev.cls("behaviour_" + b)
     if not problems and stats["overlap"] and len(ev.samples) < 2:
